@@ -1,8 +1,10 @@
 #!/bin/sh
 # Run the repository's own suite (guard off - there are no source hooks) and compare with BASELINE.json stable_pass.
+# usage: baseline.sh [outdir] [repo dir]
 out=${1:-/tmp/verif-baseline}
+repo=${2:-/repo}
 mkdir -p "$out"
-cd /repo && /venv/bin/python -m pytest -ra -q -p no:cacheprovider --timeout=900 --continue-on-collection-errors --junitxml="$out/junit.xml" > "$out/pytest.log" 2>&1
+cd "$repo" && PYTHONPATH="$repo" /venv/bin/python -m pytest -ra -q -p no:cacheprovider --timeout=900 --continue-on-collection-errors --junitxml="$out/junit.xml" > "$out/pytest.log" 2>&1
 /venv/bin/python - "$out/junit.xml" <<'PY'
 import json, sys, xml.etree.ElementTree as ET
 base = json.load(open('/root/.vp/BASELINE.json'))
